@@ -1,5 +1,6 @@
 """C14 - mapping engine state machine and time-outs."""
 from props.base import *
+NEEDS_VIEW = True     # reads the public fields of the automata objects
 COQ_TARGETS = ['props/Properties_C14.vo']
 EXPECT_KEYS = {'map'}
 RULE = ('exhaustive single steps: 3 states x inputs -128..255 x elapsed {0, t-1, t, t+1, 10t} (t = the state\'s time-out, 7 for the idle state), '
@@ -25,6 +26,41 @@ def scenarios(rng, tier):
             elif r < 0.7: s.op('st_add 0', hx(mac(rng.randrange(4))), rng.randrange(3), rng.randrange(5))
             else: s.op('ss_map 0', rng.choice([0, 2, 8, -1, -3, 4, 6, 9, 11, -2, 1, 3, 5, 7, 12, 200, -100]))
     return [(s.text(), {})]
+def oracle(name, ib, mb, meta):
+    """the property's state machine, run from the operations alone (no model involved): Discover (0) opens, Emit (2) in
+    Command -> Emit, emission complete (-3) back, Reset (8) / -1 end the session, everything else unchanged; an active
+    state left without input for longer than its time-out is idle at the next input (only a Discover reopens in that
+    step); 30 s after the last frame the tick ends the session, clears the charge counter and empties the table"""
+    fails = []; now = 0; st = 0; last_in = 0; last_frame = None
+    F = V.facts()
+    for i, b in enumerate(ib):
+        if b.fault: break
+        t = b.op.split()
+        if 'now' in b.kv: now = int(b.kv['now'])
+        if t[0] == 'mk': st = 0; last_in = now // 1000; last_frame = None
+        elif t[0] == 'set_map': st = int(t[2]); last_in = int(t[3])
+        elif t[0] == 'map_touch': last_frame = now // 1000
+        elif t[0] == 'ss_map' and 'map' in b.kv:
+            inp = int(t[2]); ns = now // 1000
+            tmo = {1: 5, 2: 30}.get(st, 0)
+            got = int(b.kv['map'].split('@')[0])
+            if tmo and ns - last_in > tmo:
+                # timed out: idle; "only a Discover may reopen a session in that same step" - both outcomes are allowed then
+                st = got if (inp == 0 and got in (0, 1)) else 0
+            elif st == 0: st = 1 if inp == 0 else 0
+            elif st == 1: st = 2 if inp == 2 else 0 if inp in (8, -1) else 1
+            elif st == 2: st = 1 if inp == -3 else 0 if inp in (8, -1) else 2
+            last_in = ns
+            if got != st:
+                fails.append((i, 'mapping engine in state %d after input %d at %d s; the state machine of the property gives %d' % (got, inp, ns, st))); break
+        elif t[0] == 'tick' and 'map' in b.kv:
+            ns = now // 1000
+            if last_frame is not None and ns >= last_frame + 30:
+                got = int(b.kv['map'].split('@')[0])
+                if got != 0 or b.kv.get('ctc') != '0' or b.kv.get('cnt') not in (None, '0'):
+                    fails.append((i, '30 s without a frame (last at %d s, tick at %d s): state %d, charge counter %s, %s sessions; must be idle / 0 / none' % (last_frame, ns, got, b.kv.get('ctc'), b.kv.get('cnt')))); break
+                st = 0; last_frame = None; last_in = ns
+    return fails
 def project(blk, name, meta):
     if blk.op.startswith(('st_add',)): return project_keys(blk, ['cnt'])
     return project_keys(blk, ['map', 'ctc', 'chg', 'inact'] + (['cnt', 'empty'] if blk.op.startswith('tick') else []))
